@@ -139,6 +139,7 @@ type FuncSpec struct {
 	Pos      string
 	Bound    bool // set when matched to an SSA function
 	NoNil    []string
+	PostUpdates []Update // ghost updates evaluated in the post-state (may mention result); applied after `updates`
 	Bridges  []Update // ghost(params) = expr over the CURRENT ghost state at return: proved equal to the declared update, then usable
 	Hints    []Clause // proved at every return in the state BEFORE the ghost updates; introduces ground terms
 }
@@ -172,7 +173,7 @@ type tok struct {
 var keywords = map[string]bool{
 	"requires": true, "ensures": true, "modifies": true, "updates": true, "loop": true,
 	"func": true, "fun": true, "macro": true, "ghost": true, "axiom": true, "iface": true,
-	"trusted": true, "assume": true, "defaxiom": true, "hint": true, "bridge": true, "uses": true, "inv": true, "dec": true, "nonnil": true, "typeinv": true,
+	"trusted": true, "assume": true, "defaxiom": true, "hint": true, "bridge": true, "postupdates": true, "uses": true, "inv": true, "dec": true, "nonnil": true, "typeinv": true,
 }
 
 func lex(src string, line0 int, file string) ([]tok, error) {
@@ -738,8 +739,9 @@ func (p *sparser) parseClauses(fs *FuncSpec) {
 				}
 				break
 			}
-		case "updates", "bridge":
+		case "updates", "bridge", "postupdates":
 			isBridge := t.s == "bridge"
+			isPost := t.s == "postupdates"
 			p.next()
 			g := p.ident()
 			p.expectOp("(")
@@ -752,7 +754,9 @@ func (p *sparser) parseClauses(fs *FuncSpec) {
 			}
 			p.expectOp(")")
 			p.expectOp("=")
-			if isBridge {
+			if isPost {
+				fs.PostUpdates = append(fs.PostUpdates, Update{Ghost: g, Params: ps, Body: p.expr(), Pos: pos})
+			} else if isBridge {
 				fs.Bridges = append(fs.Bridges, Update{Ghost: g, Params: ps, Body: p.expr(), Pos: pos})
 			} else {
 				fs.Updates = append(fs.Updates, Update{Ghost: g, Params: ps, Body: p.expr(), Pos: pos})
